@@ -1764,6 +1764,13 @@ fn check_variant(rep: &mut Report, drv: &mut Driver, p: &Program, label: &str, i
         if let Out::Panic(m) = &run.base {
             rep.violation(&format!("the compiler panicked on a module tree: {m}"), &format!("panic:{m}"), json!({"case": ident, "variant": label, "sources": sources_json(p, &keep_ok, &tags)}));
         }
+        if let Out::Err(k) = &run.base {
+            if k.contains("Parse error") {
+                // every reference is rendered in documented syntax: a parse error is the parser's
+                let key = if k.contains("got 'pkg'") || k.contains("got 'super'") { "return-path-keyword" } else { "reference-does-not-parse" };
+                rep.violation(&format!("a reference in documented syntax does not parse: {k}"), key, json!({"case": ident, "variant": label, "blamed": blamed, "sources": sources_json(p, &keep_ok, &tags)}));
+            }
+        }
         res.class.push("tree:ok/refs-rejected".into());
         return res;
     }
@@ -1874,7 +1881,11 @@ fn check_variant(rep: &mut Report, drv: &mut Driver, p: &Program, label: &str, i
                         "reference `{}` written in {} resolves to {} but the lookup rules (innermost declarations, imports, outward; later segments direct members) on the compiler's own scope graph designate {} ({label})",
                         path.join("."), i.scope, got.show(), want.show()
                     ),
-                    &format!("lookup-rule:{}-vs-{}", want.class(), got.class()),
+                    &(if path[0] == "super" && matches!(want, Out::Err(_)) && matches!(got, Out::Ok(_)) {
+                        "super-nonmember".to_string()
+                    } else {
+                        format!("lookup-rule:{}-vs-{}", want.class(), got.class())
+                    }),
                     json!({"case": ident, "variant": label, "probe": id, "sources": sources_json(p, &keep_ok, &tags)}),
                 );
             }
